@@ -183,16 +183,22 @@ def eval_cases(pid, cases_by_fn, tie, workdir, log, shard=400):
         if fn not in tie["fns"]:
             return None, ["harness emitted cases for unknown model function %s" % fn]
         run, eqb, ty = tie["fns"][fn]
-        for s in range(0, len(cases), shard):
-            chunk = cases[s:s + shard]
-            name = "cases_%s_%s_%d" % (pid, fn, s)
+        # shards are cut by count and by source size (Coq parses large literals slowly)
+        rendered = ["(%s, %s)" % (to_coq(c["in"]), to_coq(c["out"])) for c in cases]
+        s0 = 0
+        while s0 < len(rendered):
+            e0, size = s0, 0
+            while e0 < len(rendered) and e0 - s0 < shard and (size < 250000 or e0 == s0):
+                size += len(rendered[e0]); e0 += 1
+            name = "cases_%s_%s_%d" % (pid, fn, s0)
             src = "From ZV Require Import Prelude %s.\nOpen Scope Z_scope.\n" % " ".join(tie["modules"])
             src += "Definition cs : list (%s) := [\n" % ty
-            src += ";\n".join("(%s, %s)" % (to_coq(c["in"]), to_coq(c["out"])) for c in chunk)
+            src += ";\n".join(rendered[s0:e0])
             src += "\n].\nDefinition bad := Eval vm_compute in mismatches %s %s cs.\nPrint bad.\n" % (run, eqb)
             path = os.path.join(workdir, name + ".v")
             open(path, "w").write(src)
-            jobs.append((fn, s, path))
+            jobs.append((fn, s0, path))
+            s0 = e0
     bad = {fn: [] for fn in cases_by_fn}
     errors = []
     def one(j):
@@ -252,46 +258,8 @@ def run_check(pid, cfg, tier, seed, replay=None):
         # /repo or harness does not compile: nothing can be said; report as infrastructure error
         print("ERROR: go build failed\n" + out[-3000:])
         return 2
-    regen_problems = regen(log)
-
-    # ---- prove
-    grep_bad = gate_grep()
-    targets = [cfg["props"] + "o"] + ["theories/%s.vo" % m for m in cfg["tie"]["modules"]]
-    mk_ok, mk_out = make_targets(targets, log, clean=(tier == "thorough" and os.environ.get("VERIF_NOCLEAN") != "1"))
-    broken = failing_items(mk_out) if not mk_ok else []
-    for p in regen_problems:
-        broken.append(("gen", 0, p))
-    thms = theorems_of(cfg["props"])
-    obligations = len(thms)
-    discharged = 0
-    axioms_used = set()
-    pa_out = ""
-    props_vo_ok = os.path.exists(os.path.join(COQ, cfg["props"] + "o")) and mk_ok
-    if props_vo_ok and not grep_bad:
-        rc, pa_out, blocks = print_assumptions(pid, cfg["props"], thms, workdir)
-        if rc == 0 and len(blocks) == len(thms):
-            for t, b in zip(thms, blocks):
-                bset = set(b)
-                if bset <= set(cfg.get("allowed_axioms", [])):
-                    discharged += 1
-                    axioms_used |= bset
-                else:
-                    broken.append((cfg["props"], 0, "%s depends on undeclared axioms %s" % (t, sorted(bset))))
-        else:
-            broken.append((cfg["props"], 0, "Print Assumptions failed: " + pa_out[-800:]))
-    for g in grep_bad:
-        broken.append(("grep-gate", 0, g))
-    coqchk_out = None
-    if tier == "thorough" and props_vo_ok and os.environ.get("VERIF_NOCOQCHK") != "1":
-        mod = "ZV.Props." + os.path.basename(cfg["props"])[:-2]
-        with Lock("coq"):
-            rc, coqchk_out = sh(["timeout", "2400", "coqchk", "-silent", "-o"] + coq_flags()[:-2] + [mod], cwd=COQ, timeout=2500)
-        if rc != 0:
-            broken.append((cfg["props"], 0, "coqchk failed: " + coqchk_out[-800:]))
-
     # ---- tie: run the implementation, evaluate the model on the same inputs
     cases, oracle_fails, dist = [], [], {}
-    tie_model_ok = all(os.path.exists(os.path.join(COQ, "theories/%s.vo" % m)) for m in cfg["tie"]["modules"])
     corpus = sorted(glob.glob(os.path.join(VERIF, "corpus", pid, "*.jsonl")))
     harness_errors = []
     for si, suite in enumerate(cfg["suites"]):
@@ -332,19 +300,60 @@ def run_check(pid, cfg, tier, seed, replay=None):
                 o["tag"] = "corpus"
                 cases.append(o)
 
-    by_fn = {}
-    for c in cases:
-        by_fn.setdefault(c["fn"], []).append(c)
-    mismatches = []
-    tie_errors = []
-    if tie_model_ok and cases:
-        bad, tie_errors = eval_cases(pid, by_fn, cfg["tie"], workdir, log)
-        if bad is not None:
-            for fn, idxs in bad.items():
-                for i in idxs:
-                    mismatches.append(by_fn[fn][i])
-    elif not tie_model_ok:
-        tie_errors.append("model modules did not build: " + ", ".join(cfg["tie"]["modules"]))
+    # ---- regen + prove + evaluate the model, as one critical section (several checks may run at once and
+    # share coq/gen and the .vo files)
+    with Lock("coqrun"):
+        regen_problems = regen(log)
+
+        # ---- prove
+        grep_bad = gate_grep()
+        targets = [cfg["props"] + "o"] + ["theories/%s.vo" % m for m in cfg["tie"]["modules"]]
+        mk_ok, mk_out = make_targets(targets, log, clean=(tier == "thorough" and os.environ.get("VERIF_NOCLEAN") != "1"))
+        broken = failing_items(mk_out) if not mk_ok else []
+        for p in regen_problems:
+            broken.append(("gen", 0, p))
+        thms = theorems_of(cfg["props"])
+        obligations = len(thms)
+        discharged = 0
+        axioms_used = set()
+        pa_out = ""
+        props_vo_ok = os.path.exists(os.path.join(COQ, cfg["props"] + "o")) and mk_ok
+        if props_vo_ok and not grep_bad:
+            rc, pa_out, blocks = print_assumptions(pid, cfg["props"], thms, workdir)
+            if rc == 0 and len(blocks) == len(thms):
+                for t, b in zip(thms, blocks):
+                    bset = set(b)
+                    if bset <= set(cfg.get("allowed_axioms", [])):
+                        discharged += 1
+                        axioms_used |= bset
+                    else:
+                        broken.append((cfg["props"], 0, "%s depends on undeclared axioms %s" % (t, sorted(bset))))
+            else:
+                broken.append((cfg["props"], 0, "Print Assumptions failed: " + pa_out[-800:]))
+        for g in grep_bad:
+            broken.append(("grep-gate", 0, g))
+        coqchk_out = None
+        if tier == "thorough" and props_vo_ok and os.environ.get("VERIF_NOCOQCHK") != "1":
+            mod = "ZV.Props." + os.path.basename(cfg["props"])[:-2]
+            with Lock("coq"):
+                rc, coqchk_out = sh(["timeout", "2400", "coqchk", "-silent", "-o"] + coq_flags()[:-2] + [mod], cwd=COQ, timeout=2500)
+            if rc != 0:
+                broken.append((cfg["props"], 0, "coqchk failed: " + coqchk_out[-800:]))
+
+        tie_model_ok = all(os.path.exists(os.path.join(COQ, "theories/%s.vo" % m)) for m in cfg["tie"]["modules"])
+        by_fn = {}
+        for c in cases:
+            by_fn.setdefault(c["fn"], []).append(c)
+        mismatches = []
+        tie_errors = []
+        if tie_model_ok and cases:
+            bad, tie_errors = eval_cases(pid, by_fn, cfg["tie"], workdir, log)
+            if bad is not None:
+                for fn, idxs in bad.items():
+                    for i in idxs:
+                        mismatches.append(by_fn[fn][i])
+        elif not tie_model_ok:
+            tie_errors.append("model modules did not build: " + ", ".join(cfg["tie"]["modules"]))
 
     # ---- verdict
     known = load_known()
